@@ -7,4 +7,6 @@ EXTENDS Integers
 Tol_exact_float      == -12000  \* rational oracle vs float result (measured <= 5e-16)
 Tol_detrend_abs      == -10000  \* plane removal, absolute on O(1) images (measured 8e-16)
 Tol_center_mpx       == 1000    \* centre finder: |found-true| <= 1 px, in milli-pixels (measured <= 40)
+Tol_voxel_fine       == -1500   \* voxel volume vs analytic at spacing r/20: 3e-2 (measured <= 8e-3)
+Tol_overlap          == -12000  \* largest_overlap vs rsum - sqrt(d2)
 =============================================================================
